@@ -55,10 +55,17 @@ struct FitOut {
     /// the rows actually handed to predict (as cast to the working precision): the caller's
     /// query rows plus, after a fit that ended with a memberless cluster, the probe rows
     q_used: Rows,
+    /// the same query rows predicted once more through other matrix back ends:
+    /// (back end, status, labels)
+    alt: Vec<(&'static str, &'static str, Vec<f64>)>,
 }
 
+/// when set, fit_as! repeats its predict call through the ndarray back end (row-major and
+/// column-major storage of the same rows) and the nalgebra back end
+static ALT_BACKENDS: std::sync::atomic::AtomicBool = std::sync::atomic::AtomicBool::new(false);
+
 fn empty_out(status: &'static str) -> FitOut {
-    FitOut { status, y: vec![], size: vec![], centroids: vec![], pstatus: "none", pred: vec![], q_used: vec![] }
+    FitOut { status, y: vec![], size: vec![], centroids: vec![], pstatus: "none", pred: vec![], q_used: vec![], alt: vec![] }
 }
 
 /// read the private state of a fitted model through its serde serialisation
@@ -128,7 +135,7 @@ macro_rules! fit_as {
                     qall.extend(probe_rows(&x, &size, &centroids));
                     let qm: Vec<Vec<$t>> = qall.iter().map(|r| r.iter().map(|&v| v as $t).collect()).collect();
                     let q_used: Rows = qm.iter().map(|r| r.iter().map(|&v| v as f64).collect()).collect();
-                    let mut out = FitOut { status: "ok", y, size, centroids, pstatus: "none", pred: vec![], q_used };
+                    let mut out = FitOut { status: "ok", y, size, centroids, pstatus: "none", pred: vec![], q_used, alt: vec![] };
                     if !qm.is_empty() {
                         let qd = DenseMatrix::from_2d_vec(&qm);
                         match guard(|| model.predict(&qd)) {
@@ -138,6 +145,29 @@ macro_rules! fit_as {
                             }
                             Ok(Err(_)) => out.pstatus = "err",
                             Err(_) => out.pstatus = "panic",
+                        }
+                        if ALT_BACKENDS.load(std::sync::atomic::Ordering::Relaxed) {
+                            let (nq, dq) = (qm.len(), qm[0].len());
+                            let flat: Vec<$t> = qm.iter().flat_map(|r| r.iter().copied()).collect();
+                            let mut colmajor: Vec<$t> = Vec::with_capacity(nq * dq);
+                            for j in 0..dq {
+                                for i in 0..nq {
+                                    colmajor.push(qm[i][j]);
+                                }
+                            }
+                            let nd_c = ndarray::Array2::<$t>::from_shape_vec((nq, dq), flat.clone()).unwrap();
+                            let nd_f = ndarray::Array2::<$t>::from_shape_vec((dq, nq), colmajor).unwrap().reversed_axes();
+                            let na = nalgebra::DMatrix::<$t>::from_row_slice(nq, dq, &flat);
+                            let r1 = guard(|| model.predict(&nd_c).map(|p| p.iter().map(|&v| v as f64).collect::<Vec<f64>>()));
+                            let r2 = guard(|| model.predict(&nd_f).map(|p| p.iter().map(|&v| v as f64).collect::<Vec<f64>>()));
+                            let r3 = guard(|| model.predict(&na).map(|p| p.iter().map(|&v| v as f64).collect::<Vec<f64>>()));
+                            for (name, r) in vec![("ndarray", r1), ("ndarray-colmajor", r2), ("nalgebra", r3)] {
+                                match r {
+                                    Ok(Ok(p)) => out.alt.push((name, "ok", p)),
+                                    Ok(Err(_)) => out.alt.push((name, "err", vec![])),
+                                    Err(_) => out.alt.push((name, "panic", vec![])),
+                                }
+                            }
                         }
                     }
                     out
@@ -171,7 +201,7 @@ macro_rules! fit_direct {
                 let qm: Vec<Vec<$t>> = qall.iter().map(|r| r.iter().map(|&v| v as $t).collect()).collect();
                 let q_used: Rows = qm.iter().map(|r| r.iter().map(|&v| v as f64).collect()).collect();
                 let qd = DenseMatrix::from_2d_vec(&qm);
-                let mut out = FitOut { status: "ok", y, size, centroids, pstatus: "none", pred: vec![], q_used };
+                let mut out = FitOut { status: "ok", y, size, centroids, pstatus: "none", pred: vec![], q_used, alt: vec![] };
                 match guard(|| model.predict(&qd)) {
                     Ok(Ok(p)) => {
                         out.pstatus = "ok";
@@ -256,6 +286,13 @@ fn fit_event_off(run: i64, cls: &str, prec: u32, lattice: bool, x: &Rows, q: &Ro
         m.insert("Q8".into(), json!(qq8));
         m.insert("c8".into(), json!(c8));
         m.insert("pred".into(), json!(pred));
+        let alt: Vec<Value> = o
+            .alt
+            .iter()
+            .map(|(b, st, p)| json!({"b": b, "status": st,
+                                     "pred": p.iter().map(|&v| int_exact(v).unwrap_or(-1)).collect::<Vec<i64>>()}))
+            .collect();
+        m.insert("alt".into(), json!(alt));
     }
     e
 }
@@ -422,6 +459,8 @@ fn gen_fit(out: &mut Out, run: &mut i64) {
             continue; // outside the domain of the statement for every k >= 2
         }
         let q = queries(&mut r, &x, lattice);
+        // every third data set: predict also through the ndarray (both storage orders) and nalgebra back ends
+        ALT_BACKENDS.store(s % 3 == 0, std::sync::atomic::Ordering::Relaxed);
         for _ in 0..reps {
             let k = r.gen_range(2..=8usize.min(dist));
             let mi = MAX_ITERS[r.gen_range(0..MAX_ITERS.len())];
@@ -430,6 +469,7 @@ fn gen_fit(out: &mut Out, run: &mut i64) {
             out.emit(fit_event(*run, cls, prec, lattice, &x, &q, k, mi, &o));
         }
     }
+    ALT_BACKENDS.store(false, std::sync::atomic::Ordering::Relaxed);
 }
 
 // ------------------------------------------------------------------ rows one ulp apart
@@ -877,17 +917,15 @@ fn permutations(items: &[i64]) -> Vec<Vec<i64>> {
 fn gen_comp(out: &mut Out, run: &mut i64) {
     let th = thorough();
     let mut r = rng(1205);
-    let reps = if th { 2400 } else { 400 };
-    let mut sets: Vec<Rows> = Vec::new();
+    let reps = if th { 600 } else { 90 };
+    let mut sets: Vec<(Rows, usize)> = Vec::new(); // (rows, smallest k)
     let fl = |v: Vec<Vec<i64>>| -> Rows { v.into_iter().map(|r| r.into_iter().map(|a| a as f64).collect()).collect() };
-    // full layers
-    sets.push(fl(simplex_layer(3, 4)));
-    sets.push(fl(simplex_layer(2, 7)));
-    sets.push(fl(simplex_layer(4, 3)));
-    // permutations of a multiset
-    sets.push(fl(permutations(&[0, 1, 3])));
-    sets.push(fl(permutations(&[1, 2, 2, 4])));
-    // small full grid (anti-diagonal pairs)
+    // full layers in 3 and 4 dimensions, permutations of a multiset
+    sets.push((fl(simplex_layer(3, 4)), 3));
+    sets.push((fl(simplex_layer(4, 3)), 3));
+    sets.push((fl(permutations(&[1, 2, 2, 4])), 3));
+    // collinear layer and a small full grid (anti-diagonal pairs (a,b)/(b,a)) in 2-D
+    sets.push((fl(simplex_layer(2, 7)), 2));
     let g = r.gen_range(3..=4i64);
     let mut grid = Vec::new();
     for a in 0..g {
@@ -895,25 +933,25 @@ fn gen_comp(out: &mut Out, run: &mut i64) {
             grid.push(vec![a, b]);
         }
     }
-    sets.push(fl(grid));
+    sets.push((fl(grid), 2));
     // random compositions with duplicates, like percentages: n rows, d parts, total S
-    let extra = if th { 12 } else { 4 };
+    let extra = if th { 12 } else { 3 };
     for _ in 0..extra {
-        let d = r.gen_range(2..=4usize);
+        let d = r.gen_range(3..=4usize);
         let total = r.gen_range(4..=10i64);
         let layer = simplex_layer(d, total);
-        let n = r.gen_range(8..=28usize);
+        let n = r.gen_range(10..=28usize);
         let rows: Vec<Vec<i64>> = (0..n).map(|_| layer[r.gen_range(0..layer.len())].clone()).collect();
-        sets.push(fl(rows));
+        sets.push((fl(rows), 3));
     }
-    for x in sets.iter() {
+    for (x, kmin) in sets.iter() {
         let dist = distinct_rows(x);
         if dist < 2 {
             continue;
         }
         let kmax = 4usize.min(dist);
-        for k in 2..=kmax {
-            refit_one(x, k, reps, "comp", out, run);
+        for k in (*kmin).min(kmax)..=kmax {
+            refit_one(x, k, if *kmin == 2 { reps / 3 } else { reps }, "comp", out, run);
         }
     }
 }
